@@ -106,7 +106,7 @@ CORE_FLAVOURS = ('bare', 'bare', 'bare', 'bare', 'upper', 'upper', 'digit', 'dig
 
 PLAIN_WORDS = ['alpha', 'beta', 'gamma', 'delta', 'user id', 'to include unit number', 'x', 'Total', 'naïve', '数据', 'New  York']
 RICH_BITS = ["it's", 'say "hi"', 'a\\b', 'back`tick', '{x}', '{0}', '[y]', '# hash', '// not a comment',
-             '/* nor this */', 'a: b', 'semi;colon', "'''", '%s', 'tab-less', '<>', 'Table t {', '}']
+             '/* nor this */', 'a: b', 'semi;colon', "'''", '%s', 'tab-less', '<>', 'Table t {', '}', 'zw\ufeffnbsp', '\ufeff']
 
 
 class Texts:
